@@ -61,6 +61,7 @@ fn check_tuple(rep: &Report, elems: Vec<OwnedTerm>) {
                 rep.violation("into_term and to_term disagree", json!({"tuple": want.short()}));
             }
             wire_trip(rep, &m, &want);
+            if n <= 3 { header_trip(rep, &m, &want); }
         }
     }
 }
@@ -91,6 +92,35 @@ fn wire_trip(rep: &Report, m: &ControlMessage, want: &RefVal) {
             rep.violation("structured message does not survive the wire encoding", json!({"tuple": want.short(), "error": e.to_string()}));
         }
     }
+}
+
+/// The other wire form: the control tuple under a distribution header (alone, and followed by a payload), read back by
+/// the library's cache-aware decoder and by the independent header reader.
+fn header_trip(rep: &Report, m: &ControlMessage, want: &RefVal) {
+    let term = m.to_term();
+    let payload = OwnedTerm::Tuple(vec![int(7), OwnedTerm::Binary(vec![1, 2])]);
+    for with_payload in [false, true] {
+        let enc = if with_payload { erltf::encode_with_dist_header_multi(&[&term, &payload]) } else { erltf::encode_with_dist_header(&term) };
+        let enc = match enc { Ok(b) => b, Err(e) => { rep.violation("control tuple does not encode under a distribution header", json!({"tuple": want.short(), "error": e.to_string()})); return; } };
+        let mut rx = vcore::proto::RxCache::default();
+        match vcore::proto::read_dist_header_msg(&enc, &mut rx) {
+            Ok(r) if exact_eq(&r.control, want) && r.payload.is_some() == with_payload => {}
+            other => { rep.violation("independent header reader does not recover the control tuple", json!({"tuple": want.short(), "with_payload": with_payload, "read": format!("{:?}", other.map(|r| r.control.short())), "bytes": vcore::report::hex(&enc)})); return; }
+        }
+        let mut cache = erltf::AtomCache::new();
+        match erltf::decode_with_atom_cache(&enc, &mut cache) {
+            Ok((c, p)) => match ControlMessage::from_term(&c) {
+                Ok(m2) if exact_eq(&denote(&m2.to_term()), want) && p.is_some() == with_payload && std::mem::discriminant(&m2) == std::mem::discriminant(m) => {}
+                other => rep.violation("message changed by a trip through the distribution-header encoding", json!({"tuple": want.short(), "with_payload": with_payload, "after": format!("{:?}", other).chars().take(160).collect::<String>()})),
+            },
+            Err(e) => rep.violation("structured message does not survive the distribution-header encoding", json!({"tuple": want.short(), "with_payload": with_payload, "error": e.to_string()})),
+        }
+    }
+}
+
+fn ra0(tag: i64, rest: &[OwnedTerm]) -> Result<ControlMessage, edp_client::Error> {
+    let mut a = vec![int(tag)]; a.extend(rest.iter().cloned());
+    ControlMessage::from_term(&OwnedTerm::Tuple(a))
 }
 
 fn marker(i: usize) -> OwnedTerm {
@@ -168,7 +198,7 @@ fn check_table(rep: &Report) {
         // and the parser maps the protocol's tuple back to this very variant
         let tuple = msg.to_term();
         match ControlMessage::from_term(&tuple) {
-            Ok(m2) if m2 == msg => {}
+            Ok(m2) if m2 == msg => { let want = denote(&tuple); wire_trip(rep, &msg, &want); header_trip(rep, &msg, &want); }
             other => rep.violation("parser does not map the protocol tuple to the named operation", json!({"operation": name, "parsed": format!("{:?}", other).chars().take(200).collect::<String>()})),
         }
     }
@@ -206,6 +236,15 @@ pub fn run(rep: &Report) -> serde_json::Value {
         for rest in [vec![], vec![int(1), int(2)], vec![atom(""), int(1)], vec![int(1), int(2), int(3), int(4)]] {
             rep.add("evaluations", 1);
             let mut a = vec![int(tag)]; a.extend(rest.iter().cloned());
+            // (also with zero digits above the value: nine and three hundred digit bytes)
+            for pad in [9usize, 300] {
+                let mut digits = vec![0u8; pad]; digits[0] = tag as u8;
+                let mut p = vec![OwnedTerm::BigInt(erltf::types::BigInt::new(erltf::types::Sign::Positive, digits))]; p.extend(rest.iter().cloned());
+                let rp = ControlMessage::from_term(&OwnedTerm::Tuple(p));
+                if !matches!((&ra0(tag, &rest), &rp), (Ok(x), Ok(y)) if vcore::refval::exact_eq(&denote(&x.to_term()), &denote(&y.to_term()))) {
+                    rep.violation("a tag held as a big integer is not treated as that tag", json!({"tag": tag, "arity": rest.len() + 1, "digit_bytes": pad, "parses": rp.is_ok()}));
+                }
+            }
             let mut b = vec![bigv(false, tag as u128)]; b.extend(rest.iter().cloned());
             let (ra, rb) = (ControlMessage::from_term(&OwnedTerm::Tuple(a)), ControlMessage::from_term(&OwnedTerm::Tuple(b.clone())));
             let same = match (&ra, &rb) { (Ok(x), Ok(y)) => vcore::refval::exact_eq(&denote(&x.to_term()), &denote(&y.to_term())), _ => false };
@@ -248,6 +287,7 @@ pub fn run(rep: &Report) -> serde_json::Value {
                 continue;
             }
             wire_trip(rep, &m, &want);
+            header_trip(rep, &m, &want);
         }
     }
     rep.sample(json!({"tuple": "{35, 9223372036854775808(BigInt), pid, pid}", "expected": "parses"}));
